@@ -26,7 +26,8 @@ def keywords : List String :=
 /-- multi-character symbols, longest first -/
 def symbols : List String :=
   ["...", "..=", "//=", "..", "==", "~=", "<=", ">=", "//", "::", "+=", "-=", "*=", "/=", "%=", "^=", "->",
-   "+", "-", "*", "/", "%", "^", "#", "<", ">", "=", "(", ")", "{", "}", "[", "]", ";", ":", ",", "."]
+   "+", "-", "*", "/", "%", "^", "#", "<", ">", "=", "(", ")", "{", "}", "[", "]", ";", ":", ",", ".",
+   "?", "|", "&"]
 
 def isDigit (b : UInt8) : Bool := 48 ≤ b && b ≤ 57
 def isAlpha (b : UInt8) : Bool := (65 ≤ b && b ≤ 90) || (97 ≤ b && b ≤ 122) || b == 95
@@ -286,6 +287,10 @@ def blockEnd : Option Token → Bool
 
 def par (items : List String) : String := "(" ++ " ".intercalate items ++ ")"
 
+def argType (a : String) : String :=
+  -- `(arg - T)` → `T`
+  if a.startsWith "(arg - " then ((a.drop 7).dropRight 1).toString else a
+
 mutual
 partial def expr (limit : Nat) : P String := do
   let mut left ←
@@ -338,7 +343,7 @@ partial def simpleExpr : P String := do
       return par (["ifexp", c, r, e] ++ branches.toList)
     | _ => primaryExpr
   if ← acceptSym "::" then
-    let t ← expectName
+    let t ← parseType
     return par ["cast", e, t]
   return e
 
@@ -420,22 +425,223 @@ partial def tableCons : P (List String) := do
   expectSym "}"
   return entries.toList
 
-/-- after the `function` keyword (and name): `( params ) block end` -/
+/-- after the `function` keyword (and name): `[<generics>] ( params ) [: ret] block end` -/
 partial def funcBody : P String := do
+  let generics ← if ← isSym "<" then parseGenerics else pure []
   expectSym "("
-  let mut params : Array String := #[]
-  let mut variadic := false
+  let mut params : Array (String × String) := #[]
+  let mut variadic := "n"
   if !(← isSym ")") then
     repeat
       if ← acceptSym "..." then
-        variadic := true
+        variadic := "v"
+        if ← acceptSym ":" then
+          -- `...: T` or `...: T...`
+          match ← peek, ← peek2 with
+          | some (.name g), some (.sym "...") =>
+            advance; advance
+            variadic := par ["tgeneric", g]
+          | _, _ =>
+            let t ← parseType
+            variadic := par ["tvariadic", t]
         break
-      params := params.push (← expectName)
+      let n ← expectName
+      let t ← if ← acceptSym ":" then parseType else pure "-"
+      params := params.push (n, t)
       if ← acceptSym "," then continue else break
   expectSym ")"
+  let ret ← if ← acceptSym ":" then returnOrArg else pure "-"
   let body ← block
   expectKw "end"
-  return par ["func", par params.toList, if variadic then "v" else "n", body]
+  let typed := !generics.isEmpty || params.any (fun p => p.2 != "-") || ret != "-" || (variadic != "n" && variadic != "v")
+  if typed then
+    return par ["funct", par generics, par (params.toList.map fun p => par [p.1, p.2]), variadic, ret, body]
+  else
+    return par ["func", par (params.toList.map (·.1)), variadic, body]
+
+/-- `< T, U = default, P... >` -/
+partial def parseGenerics : P (List String) := do
+  expectSym "<"
+  let mut items : Array String := #[]
+  repeat
+    let n ← expectName
+    if ← acceptSym "..." then
+      items := items.push (par ["pack", n])
+    else if ← acceptSym "=" then
+      let t ← parseType
+      items := items.push (par ["def", n, t])
+    else
+      items := items.push n
+    if ← acceptSym "," then continue else break
+  expectSym ">"
+  return items.toList
+
+/-- a type: `[|] T | U`, `[&] T & U`, with postfix `?` -/
+partial def parseType : P String := do
+  let lead ← if ← acceptSym "|" then pure "|" else if ← acceptSym "&" then pure "&" else pure ""
+  let first ← postfixType none
+  typeTail lead first
+
+/-- union / intersection continuation after a first member -/
+partial def typeTail (lead : String) (first : String) : P String := do
+  let mut members := #[first]
+  if (← isSym "|") && lead != "&" then
+    repeat
+      if ← acceptSym "|" then members := members.push (← postfixType none) else break
+    if ← isSym "&" then fail "mixing | and & needs parentheses"
+    return par ("tunion" :: members.toList)
+  else if (← isSym "&") && lead != "|" then
+    repeat
+      if ← acceptSym "&" then members := members.push (← postfixType none) else break
+    if ← isSym "|" then fail "mixing | and & needs parentheses"
+    return par ("tinter" :: members.toList)
+  else
+    if (← isSym "|") || (← isSym "&") then fail "mixing | and & needs parentheses"
+    return first
+
+partial def postfixType (start : Option String) : P String := do
+  let mut t ← match start with
+    | some t => pure t
+    | none => simpleType
+  repeat
+    if ← acceptSym "?" then t := par ["topt", t] else break
+  return t
+
+partial def typeArgs : P (List String) := do
+  if !(← isSym "<") then return []
+  advance
+  let mut items : Array String := #[]
+  if ← acceptSym ">" then return []
+  repeat
+    items := items.push (← returnOrArg)
+    if ← acceptSym "," then continue else break
+  expectSym ">"
+  return items.toList
+
+/-- inside `( ... )` of a function type / type pack: (arguments, variadic part) -/
+partial def typeList : P (List String × String) := do
+  let mut items : Array String := #[]
+  let mut variadic := "-"
+  if ← isSym ")" then return ([], "-")
+  repeat
+    if ← acceptSym "..." then
+      variadic := par ["tvariadic", ← parseType]
+      break
+    match ← peek, ← peek2 with
+    | some (.name g), some (.sym "...") =>
+      advance; advance
+      variadic := par ["tgeneric", g]
+      break
+    | some (.name n), some (.sym ":") =>
+      advance; advance
+      items := items.push (par ["arg", n, ← parseType])
+    | _, _ => items := items.push (par ["arg", "-", ← parseType])
+    if ← acceptSym "," then continue else break
+  return (items.toList, variadic)
+
+/-- a function return type or a type argument: a type, a type pack, `...T` or `T...` -/
+partial def returnOrArg : P String := do
+  if ← acceptSym "..." then return par ["tvariadic", ← parseType]
+  match ← peek, ← peek2 with
+  | some (.name g), some (.sym "...") => advance; advance; return par ["tgeneric", g]
+  | _, _ => pure ()
+  if ← isSym "(" then
+    advance
+    let (items, variadic) ← typeList
+    expectSym ")"
+    if ← acceptSym "->" then
+      let ret ← returnOrArg
+      let f := par ["tfunc", "()", par items, variadic, ret]
+      return ← typeTail "" (← postfixType (some f))
+    let unnamed := items.all (·.startsWith "(arg - ")
+    if !unnamed then fail "named types outside a function type"
+    if items.length == 1 && variadic == "-" && ((← isSym "?") || (← isSym "|") || (← isSym "&")) then
+      let inner := par ["tparen", argType items.head!]
+      return ← typeTail "" (← postfixType (some inner))
+    return par ["tpack", par (items.map argType), variadic]
+  parseType
+
+partial def simpleType : P String := do
+  match ← peek with
+  | some (.kw "nil") => advance; return "tnil"
+  | some (.kw "true") => advance; return "ttrue"
+  | some (.kw "false") => advance; return "tfalse"
+  | some (.str s) => advance; return par ["tstr", bytesToHex s]
+  | some (.name n) =>
+    advance
+    if n == "typeof" && (← isSym "(") then
+      advance
+      let e ← expr 0
+      expectSym ")"
+      return par ["ttypeof", e]
+    if ← acceptSym "." then
+      let n2 ← expectName
+      let args ← typeArgs
+      return par (["tfield", n, n2] ++ args)
+    let args ← typeArgs
+    return par (["tname", n] ++ args)
+  | some (.sym "{") =>
+    advance
+    if ← acceptSym "}" then return "(ttable)"
+    -- array `{ T }` or table `{ a: T, [K]: V, ["s"]: T }`
+    let isEntry ← do
+      match ← peek, ← peek2 with
+      | some (.name _), some (.sym ":") => pure true
+      | some (.sym "["), _ => pure true
+      | _, _ => pure false
+    if !isEntry then
+      let t ← parseType
+      expectSym "}"
+      return par ["tarray", t]
+    let mut entries : Array String := #[]
+    repeat
+      if ← isSym "}" then break
+      match ← peek, ← peek2 with
+      | some (.sym "["), some (.str s) =>
+        -- `["s"]: T` literal property, unless the string is a (singleton string) key type `[ "s" | T ]`
+        advance; advance
+        if ← acceptSym "]" then
+          expectSym ":"
+          entries := entries.push (par ["lit", bytesToHex s, ← parseType])
+        else
+          let k ← typeTail "" (← postfixType (some (par ["tstr", bytesToHex s])))
+          expectSym "]"
+          expectSym ":"
+          entries := entries.push (par ["indexer", k, ← parseType])
+      | some (.sym "["), _ =>
+        advance
+        let k ← parseType
+        expectSym "]"
+        expectSym ":"
+        entries := entries.push (par ["indexer", k, ← parseType])
+      | some (.name n), some (.sym ":") =>
+        advance; advance
+        entries := entries.push (par ["prop", n, ← parseType])
+      | _, _ => fail "table type entry expected"
+      if ← acceptSym "," then continue
+      if ← acceptSym ";" then continue
+      break
+    expectSym "}"
+    return par ("ttable" :: entries.toList)
+  | some (.sym "<") =>
+    let generics ← parseGenerics
+    expectSym "("
+    let (items, variadic) ← typeList
+    expectSym ")"
+    expectSym "->"
+    let ret ← returnOrArg
+    return par ["tfunc", par generics, par items, variadic, ret]
+  | some (.sym "(") =>
+    advance
+    let (items, variadic) ← typeList
+    expectSym ")"
+    if ← acceptSym "->" then
+      let ret ← returnOrArg
+      return par ["tfunc", "()", par items, variadic, ret]
+    if items.length == 1 && variadic == "-" && items.all (·.startsWith "(arg - ") then
+      return par ["tparen", argType items.head!]
+    fail "a type pack is not a type"
+  | _ => fail "type expected"
 
 partial def block : P String := do
   let mut items : Array String := #[]
@@ -550,12 +756,31 @@ partial def statement : P String := do
       let n ← expectName
       let f ← funcBody
       return par ["localfn", n, f]
-    let mut names := #[← expectName]
+    let typedName : P (String × String) := do
+      let n ← expectName
+      let t ← if ← acceptSym ":" then parseType else pure "-"
+      return (n, t)
+    let mut names := #[← typedName]
     repeat
-      if ← acceptSym "," then names := names.push (← expectName) else break
+      if ← acceptSym "," then names := names.push (← typedName) else break
     let values ← if ← acceptSym "=" then exprList else pure []
-    return par ["local", par names.toList, par values]
+    if names.any (fun p => p.2 != "-") then
+      return par ["localt", par (names.toList.map fun p => par [p.1, p.2]), par values]
+    return par ["local", par (names.toList.map (·.1)), par values]
   | _ =>
+    -- Luau: `type X<..> = T` / `export type X = T` (`type` and `export` are contextual)
+    let declaration ← do
+      match ← peek, ← peek2 with
+      | some (.name "type"), some (.name _) => pure (some "loc")
+      | some (.name "export"), some (.name "type") => advance; pure (some "exp")
+      | _, _ => pure none
+    if let some exported := declaration then
+      advance
+      let name ← expectName
+      let generics ← if ← isSym "<" then parseGenerics else pure []
+      expectSym "="
+      let t ← parseType
+      return par ["typedecl", exported, name, par generics, t]
     let e ← primaryExpr
     let t ← peek
     match t.bind compoundOp with
